@@ -155,7 +155,7 @@ fn relaxed(args: &[&str], i: usize) -> Result<Relaxed, String> {
     }
     Ok(Relaxed::from_parts(n, d))
 }
-fn f_frepr<const B: u64>(r: &FRepr<B>) -> String {
+fn f_frepr<const B: dashu_int::Word>(r: &FRepr<B>) -> String {
     if r.is_infinite() {
         return match r.sign() {
             Sign::Positive => "inf".into(),
@@ -266,49 +266,49 @@ macro_rules! with_mode {
     };
 }
 
-fn fb_to_f32<R: Round, const B: u64>(s: IBig, e: isize) -> Res {
+fn fb_to_f32<R: Round, const B: dashu_int::Word>(s: IBig, e: isize) -> Res {
     let x = FBig::<R, B>::from_parts(s, e);
     Ok(f_rnd32(x.to_f32()))
 }
-fn fb_to_f64<R: Round, const B: u64>(s: IBig, e: isize) -> Res {
+fn fb_to_f64<R: Round, const B: dashu_int::Word>(s: IBig, e: isize) -> Res {
     let x = FBig::<R, B>::from_parts(s.clone(), e);
     let r = FRepr::<B>::new(s, e);
     merge(&["fbig", "repr"], vec![run1(|| f_rnd64(x.to_f64())), run1(|| f_rnd64(r.to_f64()))])
 }
-fn fb_to_int<R: Round, const B: u64>(s: IBig, e: isize) -> Res {
+fn fb_to_int<R: Round, const B: dashu_int::Word>(s: IBig, e: isize) -> Res {
     let x = FBig::<R, B>::from_parts(s, e);
     Ok(f_rndint(x.to_int()))
 }
-fn fb_mode_f32<const B: u64>(m: &str, s: IBig, e: isize) -> Res {
+fn fb_mode_f32<const B: dashu_int::Word>(m: &str, s: IBig, e: isize) -> Res {
     with_mode!(m, fb_to_f32, B, s, e)
 }
-fn fb_mode_f64<const B: u64>(m: &str, s: IBig, e: isize) -> Res {
+fn fb_mode_f64<const B: dashu_int::Word>(m: &str, s: IBig, e: isize) -> Res {
     with_mode!(m, fb_to_f64, B, s, e)
 }
-fn fb_mode_int<const B: u64>(m: &str, s: IBig, e: isize) -> Res {
+fn fb_mode_int<const B: dashu_int::Word>(m: &str, s: IBig, e: isize) -> Res {
     with_mode!(m, fb_to_int, B, s, e)
 }
-fn fr_to_f32<const B: u64>(s: IBig, e: isize) -> Res {
+fn fr_to_f32<const B: dashu_int::Word>(s: IBig, e: isize) -> Res {
     Ok(f_rnd32(FRepr::<B>::new(s, e).to_f32()))
 }
-fn fr_to_int<const B: u64>(s: IBig, e: isize) -> Res {
+fn fr_to_int<const B: dashu_int::Word>(s: IBig, e: isize) -> Res {
     Ok(f_rndint(FRepr::<B>::new(s, e).to_int()))
 }
-fn fb_try_ibig<const B: u64>(s: IBig, e: isize) -> Res {
+fn fb_try_ibig<const B: dashu_int::Word>(s: IBig, e: isize) -> Res {
     let x = FBig::<Zero, B>::from_parts(s, e);
     Ok(match IBig::try_from(x) {
         Ok(v) => f_ibig(&v),
         Err(e) => f_err(e),
     })
 }
-fn fb_try_ubig<const B: u64>(s: IBig, e: isize) -> Res {
+fn fb_try_ubig<const B: dashu_int::Word>(s: IBig, e: isize) -> Res {
     let x = FBig::<Zero, B>::from_parts(s, e);
     Ok(match UBig::try_from(x) {
         Ok(v) => f_ubig(&v),
         Err(e) => f_err(e),
     })
 }
-fn fb_try_prim<const B: u64>(ty: &str, s: IBig, e: isize) -> Res {
+fn fb_try_prim<const B: dashu_int::Word>(ty: &str, s: IBig, e: isize) -> Res {
     let x = FBig::<Zero, B>::from_parts(s, e);
     let r = to_prim_owned!(x.clone(), ty, f_u, u8 u16 u32 u64 u128 usize);
     if let Some(r) = r {
@@ -317,7 +317,7 @@ fn fb_try_prim<const B: u64>(ty: &str, s: IBig, e: isize) -> Res {
     let r = to_prim_owned!(x, ty, f_i, i8 i16 i32 i64 i128 isize);
     r.unwrap_or_else(|| Err(format!("bad-arg type {}", ty)))
 }
-fn fb_to_rbig<const B: u64>(s: IBig, e: isize) -> Res {
+fn fb_to_rbig<const B: dashu_int::Word>(s: IBig, e: isize) -> Res {
     let x = FBig::<Zero, B>::from_parts(s.clone(), e);
     let y = FBig::<Zero, B>::from_parts(s, e);
     let f = |r: Result<(IBig, UBig), ConversionError>| match r {
@@ -335,7 +335,7 @@ fn fb_to_rbig<const B: u64>(s: IBig, e: isize) -> Res {
         ],
     )
 }
-fn fb_from_int<const B: u64>(v: IBig) -> Res {
+fn fb_from_int<const B: dashu_int::Word>(v: IBig) -> Res {
     let x = FBig::<Zero, B>::from(v.clone());
     let back = IBig::try_from(x.clone());
     Ok(format!(
@@ -347,7 +347,7 @@ fn fb_from_int<const B: u64>(v: IBig) -> Res {
         }
     ))
 }
-fn r_to_float<R: Round, const B: u64>(r: &RBig, rel: &Relaxed, prec: usize) -> Res {
+fn r_to_float<R: Round, const B: dashu_int::Word>(r: &RBig, rel: &Relaxed, prec: usize) -> Res {
     let f = |a: Approximation<FBig<R, B>, Rounding>| match a {
         Approximation::Exact(v) => format!("{} Exact", f_frepr(v.repr())),
         Approximation::Inexact(v, r) => format!("{} {}", f_frepr(v.repr()), f_rounding(r)),
@@ -357,10 +357,10 @@ fn r_to_float<R: Round, const B: u64>(r: &RBig, rel: &Relaxed, prec: usize) -> R
         vec![run1(|| f(r.to_float::<R, B>(prec))), run1(|| f(rel.to_float::<R, B>(prec)))],
     )
 }
-fn r_to_float_mode<const B: u64>(m: &str, r: &RBig, rel: &Relaxed, prec: usize) -> Res {
+fn r_to_float_mode<const B: dashu_int::Word>(m: &str, r: &RBig, rel: &Relaxed, prec: usize) -> Res {
     with_mode!(m, r_to_float, B, r, rel, prec)
 }
-fn f_from_rbig<const B: u64>(r: RBig) -> Res {
+fn f_from_rbig<const B: dashu_int::Word>(r: RBig) -> Res {
     // `From<RBig> for FBig` (infallible by type): reports the float and the rational it denotes
     let x: FBig<Zero, B> = r.into();
     let back = RBig::try_from(x.clone());
@@ -624,13 +624,13 @@ pub fn dispatch(op: &str, args: &[&str]) -> Option<Res> {
                 with_base!(b, f_from_rbig, x)
             }
             // ------------------------------------------------ floats: f.<op> d:<base> <mode> <signif> d:<exp>
-            "f.to_f32" => {
+            "f.to_f32" | "f.to_f32.code" => {
                 let b = p_usize(arg(args, 0)?)?;
                 let m = arg(args, 1)?;
                 let (s, e) = (p_ibig(arg(args, 2)?)?, p_isize(arg(args, 3)?)?);
                 with_base!(b, fb_mode_f32, m, s, e)
             }
-            "f.to_f64" => {
+            "f.to_f64" | "f.to_f64.code" => {
                 let b = p_usize(arg(args, 0)?)?;
                 let m = arg(args, 1)?;
                 let (s, e) = (p_ibig(arg(args, 2)?)?, p_isize(arg(args, 3)?)?);
@@ -642,7 +642,7 @@ pub fn dispatch(op: &str, args: &[&str]) -> Option<Res> {
                 let (s, e) = (p_ibig(arg(args, 2)?)?, p_isize(arg(args, 3)?)?);
                 with_base!(b, fb_mode_int, m, s, e)
             }
-            "fr.to_f32" => {
+            "fr.to_f32" | "fr.to_f32.code" => {
                 let b = p_usize(arg(args, 0)?)?;
                 let (s, e) = (p_ibig(arg(args, 1)?)?, p_isize(arg(args, 2)?)?);
                 with_base!(b, fr_to_f32, s, e)
